@@ -297,7 +297,7 @@ class Server:
         for p in preludes:
             cmd += ["-P", p]
         cmd += ["--server"]
-        self.p = subprocess.Popen(cmd, cwd=self.dir, env=e, stdin=subprocess.PIPE, stdout=subprocess.PIPE, preexec_fn=die_with_parent,
+        self.p = subprocess.Popen(cmd, cwd=self.dir, env=e, stdin=subprocess.PIPE, stdout=subprocess.PIPE,   # (no PDEATHSIG: it is tied to the creating *thread*)
                                   stderr=subprocess.STDOUT)
         self.n = 0
         pre = []
